@@ -162,6 +162,32 @@ def reader_check(case):
             if sy.ndim != 2 or sy.shape[0] != len(rows) or sy.shape[1] < 16 or not np.array_equal(sy[:, :16], expected[rows, :16].reshape(len(rows), 16)):
                 v.append(("read:sync:rows", "read(nsel=%r, sync=True): sync array of shape %r for %d selected sample(s): one row per sample expected" % (sel, sy.shape, len(rows))))
                 break
+        # the same window read twice on one reader object: the caller clears what it got the first time; then another take replaces the file
+        for meth in ("read_sync", "read_sync_digital"):
+            sl = slice(300, 900)
+            a1 = getattr(sr, meth)(sl)
+            try:
+                a1[...] = 0
+            except Exception:
+                pass
+            a2 = np.asarray(getattr(sr, meth)(sl))
+            if a2.shape[0] != 600 or not np.array_equal(a2[:, :16], expected[sl][:, :16]):
+                v.append(("read_sync:second-read", "%s(%r) read a second time on the same reader (after the caller cleared the first result) is not the decoded sync of the file" % (meth, sl)))
+        if suffix == ".bin":
+            sr.close()
+            raw2 = np.fromfile(fbin, dtype=np.int16).reshape(ns, -1)
+            raw2[:, -1] = np.roll(raw2[:, -1], 17)
+            raw2.tofile(fbin)
+            sr.open()
+            exp2 = np.roll(expected[:, :16], 17, axis=0)
+            a3 = np.asarray(sr.read_sync_digital(slice(300, 900)))
+            a4 = np.asarray(sr.read_sync(slice(300, 900)))
+            if not (np.array_equal(a3, exp2[300:900]) and np.array_equal(a4[:, :16], exp2[300:900])):
+                v.append(("read_sync:after-reopen", "the file was replaced by another take and the reader re-opened: read_sync of a window read before still returns the old take"))
+            raw2[:, -1] = np.roll(raw2[:, -1], -17)
+            raw2.tofile(fbin)
+            sr.close()
+            sr.open()
         ds, sy = sr.read_samples(first_sample=ns - 1, last_sample=ns) if hasattr(sr, "read_samples") else (None, np.zeros((1, 16)))
         if np.asarray(sy).ndim != 2 or np.asarray(sy).shape[0] != 1:
             v.append(("read:sync:rows", "read_samples(%d, %d): sync array of shape %r: one row per sample expected" % (ns - 1, ns, np.asarray(sy).shape)))
